@@ -44,6 +44,18 @@ func init() {
 				}
 			}
 		}
+		// sameport=1: the applications are different loopback hosts that use the same source port
+		udpSamePort = c.P("sameport", "0") == "1"
+		defer func() { udpSamePort = false }()
+		if udpSamePort {
+			var two []cfg
+			for _, cf := range cfgs {
+				if cf.apps >= 2 && (cf.method == "plain" || cf.method == "aes-256-gcm") {
+					two = append(two, cf)
+				}
+			}
+			cfgs = two
+		}
 		for _, cf := range cfgs {
 			msg := udpRouteOne(cf.singleplex, cf.method, cf.apps, cf.sizes, cf.order)
 			rep.Executions++
@@ -71,6 +83,10 @@ func udpRouteOne(singleplex bool, method string, apps int, sizes []int, order st
 
 // udpRouteRun: with emptyAnswers the datagram service sends an empty datagram before each answer
 // (legal UDP) and only the wire is of interest - the caller inspects the returned rig's tap.
+// udpSamePort: applications 1.. send from 127.0.0.(1+i) with application 0's source port (sources
+// that differ in address only).
+var udpSamePort bool
+
 func udpRouteRun(singleplex bool, method string, apps int, sizes []int, order string, emptyAnswers bool) (string, *e2eRig) {
 	uid := uidOf(0)
 	r := newE2ERig(nil, nil, nil)
@@ -132,7 +148,12 @@ func udpRouteRun(singleplex bool, method string, apps int, sizes []int, order st
 	go client.RouteUDP(func() (*net.UDPConn, error) { return front, nil }, 300*rtime.Second, singleplex, seshMaker)
 	socks := make([]*net.UDPConn, apps)
 	for i := range socks {
-		s, err := net.DialUDP("udp", nil, front.LocalAddr().(*net.UDPAddr))
+		var laddr *net.UDPAddr
+		if udpSamePort && i > 0 {
+			// another host of the loopback network using the same source port as application 0
+			laddr = &net.UDPAddr{IP: net.IPv4(127, 0, 0, byte(1+i)), Port: socks[0].LocalAddr().(*net.UDPAddr).Port}
+		}
+		s, err := net.DialUDP("udp", laddr, front.LocalAddr().(*net.UDPAddr))
 		if err != nil {
 			return err.Error(), r
 		}
